@@ -268,6 +268,7 @@ def stabilizer_to_density(input_stabilizer):
 
             for p_i, tableau_i in input_stabilizer:
                 rho += p_i * _stabilizer_to_density_pure(tableau_i)
+            return rho
         else:
             raise ValueError(
                 "Invalid stabilizer input: use either StabilizerTableau or a mixed state representation."
